@@ -40,7 +40,7 @@ Theorem C09_relay_at_most_once : forall skip tx_valid_at tx_conflict,
   (forall a b, tx_conflict a b = tx_conflict b a) ->
   forall s0 es s o, Quiescent s0 -> PoolInv tx_valid_at tx_conflict s0 -> NoDup (block_ids s0) ->
   ok_run skip tx_valid_at tx_conflict s0 es -> run skip tx_valid_at tx_conflict s0 es = (s, o) ->
-  (forall i, count_occ N.eq_dec (relayed_blocks o) i <= 1) /\
+  (forall i, (count_occ N.eq_dec (relayed_blocks o) i <= 1)%nat) /\
   (forall i, In i (relayed_blocks o) -> ~ In i (block_ids s0) /\ In i (block_ids s)) /\
   Quiescent s /\ PoolInv tx_valid_at tx_conflict s /\ NoDup (block_ids s) /\ incl (block_ids s0) (block_ids s).
 Proof. exact relay_at_most_once. Qed.
